@@ -1,6 +1,7 @@
 (* C20 property theorems: statements only, each closed by [exact]. *)
 From Coq Require Import NArith ZArith List Bool.
-From LV Require Import Lib.Bytes Lib.Decimal Model.C20 Proofs.C20 Model.C20_Callers Proofs.C20_Callers.
+From LV Require Import Lib.Bytes Lib.Decimal Model.C20 Proofs.C20 Model.C20_Callers Proofs.C20_Callers
+  Proofs.C20_More Model.C20_Dict Proofs.C20_Dict.
 Import ListNotations.
 Local Open Scope N_scope.
 
@@ -50,10 +51,70 @@ Theorem C20_effective_no_supports : forall n, n < 10 ^ 18 ->
 Proof. exact effective_no_supports. Qed.
 Print Assumptions C20_effective_no_supports.
 
+(* Distinct amounts never print alike: for ALL integers, no bound. *)
+Theorem C20_format_injective : forall z1 z2 : Z, format z1 = format z2 -> z1 = z2.
+Proof. exact format_injective. Qed.
+Print Assumptions C20_format_injective.
+
+(* A negative delta prints as '-' followed by the printed magnitude; the strict parser (no sign in its grammar) refuses
+   the signed string rather than dropping the sign, and the magnitude reads back exactly. *)
+Theorem C20_negative_printed : forall p,
+  format (Zneg p) = minus_byte :: format (Zpos p) /\ parse (format (Zneg p)) = None.
+Proof. exact negative_printed. Qed.
+Print Assumptions C20_negative_printed.
+
+Theorem C20_negative_magnitude_roundtrip : forall p, Npos p < 10 ^ 18 ->
+  parse (tl (format (Zneg p))) = Some (Npos p).
+Proof. exact negative_magnitude_roundtrip. Qed.
+Print Assumptions C20_negative_magnitude_roundtrip.
+
+(* Everything the parser accepts is below 10^18, and printing it and reading it again gives the same amount
+   (parse . format . parse = parse): no accepted spelling loses or gains a dewy on the way through the daemon. *)
+Theorem C20_parse_bound : forall s n, parse s = Some n -> n < 10 ^ 18.
+Proof. exact parse_bound. Qed.
+Print Assumptions C20_parse_bound.
+
+Theorem C20_parse_format_parse : forall s n, parse s = Some n -> parse (format (Z.of_N n)) = Some n.
+Proof. exact parse_format_parse. Qed.
+Print Assumptions C20_parse_format_parse.
+
+(* dewies.dict_values_to_lbc (Model/C20_Dict.v), for every nested dictionary and EVERY path into it: the output has an
+   entry exactly where the input has one and it is the conversion of the input's entry; an integer at any depth is
+   rendered by the exact printer (negative deltas included); anything that is neither an integer nor a dictionary is
+   handed back unchanged; a second application changes nothing. *)
+Theorem C20_dict_shape : forall path v, lookup path (to_lbc v) = option_map to_lbc (lookup path v).
+Proof. exact lookup_to_lbc. Qed.
+Print Assumptions C20_dict_shape.
+
+Theorem C20_dict_int_leaf : forall path v z, lookup path v = Some (JVInt z) ->
+  exists m k, lookup path (to_lbc v) = Some (JVStr (format z)) /\
+    dec_exact (format z) = Some (m, k) /\ (m * 10 ^ 8 = z * 10 ^ Z.of_N k)%Z /\ 1 <= k <= 8.
+Proof. exact int_leaf. Qed.
+Print Assumptions C20_dict_int_leaf.
+
+Theorem C20_dict_other_leaf : forall path v x, lookup path v = Some x ->
+  (forall z, x <> JVInt z) -> (forall b, x <> JVBool b) -> (forall kvs, x <> JVDict kvs) ->
+  lookup path (to_lbc v) = Some x.
+Proof. exact other_leaf. Qed.
+Print Assumptions C20_dict_other_leaf.
+
+Theorem C20_dict_idempotent : forall path v, lookup path (to_lbc (to_lbc v)) = lookup path (to_lbc v).
+Proof. exact to_lbc_idem_at. Qed.
+Print Assumptions C20_dict_idempotent.
+
 (* non-vacuity: concrete instances *)
 Example C20_ex1 : parse (format 9007199254740993%Z) = Some 9007199254740993.
 Proof. vm_compute. reflexivity. Qed.
 Example C20_ex2 : dec_exact (format (-1234500000)%Z) = Some ((-12345)%Z, 3).
 Proof. vm_compute. reflexivity. Qed.
 Example C20_ex3 : effective (format 150000000%Z) [format 25000000%Z; format 1%Z] = Some (format 175000001%Z).
+Proof. vm_compute. reflexivity. Qed.
+Example C20_ex4 : parse (format (-150000000)%Z) = None.
+Proof. vm_compute. reflexivity. Qed.
+Example C20_ex4b : parse (tl (format (-150000000)%Z)) = Some 150000000.
+Proof. vm_compute. reflexivity. Qed.
+Example C20_ex5 :
+  let a := [byte_of_N 97] in let fee := [byte_of_N 102; byte_of_N 101; byte_of_N 101] in
+  lookup [a; fee] (to_lbc (JVDict [(a, JVDict [([byte_of_N 120], JVOther [byte_of_N 78]); (fee, JVInt (-5)%Z)])]))
+  = Some (JVStr (format (-5)%Z)).
 Proof. vm_compute. reflexivity. Qed.
